@@ -15,6 +15,10 @@ CRYPTO_NOTE = ("The theorems are about the RFC specification (Crypto/Spec.lean) 
    "two-direction correspondence run, not by proof. aescts and Go crypto are external. ")
 
 CLAIMED = {
+ "C01": dict(
+   text="Lean theorems over the acceptor decision logic of service/APExchange.go + messages/APReq.go: the decision accepts exactly when every RFC 4120 3.2.3 condition holds (ticket opened by the keytab key selected by realm/kvno/etype for the service or override principal, now within [start-skew, end+skew], not INVALID, authenticator opened by the session key, same cname (type, components) and crealm, ctime within skew, address requirements, not a replay, PAC verifies when decoding is on), for all tickets, authenticators, clocks and settings; the reported identity and expiry are the ticket's; each time bound is decided exactly at the limit; a realm mismatch is always rejected; the pre-fix code is refuted by witness. Tied to Go by AP-REQs minted with the real library under a fake clock (six etypes x catalogue of 48 defects/settings x pairs x replays) and verified by service.VerifyAPREQ; verdict and reported identity compared with an independent byte-level Lean acceptor (RFC codec, RFC crypto, keytab rule, PAC rule, the proven decision logic).",
+   note=CRYPTO_NOTE + "Replay detection in the acceptor is the C02 model (presented-before flag); the process-wide cache is exercised by presenting the same request twice.",
+   technique="Lean 4 proof (iff over the decision logic with decidable Prop checks) + differential run of minted AP-REQs against an independent Lean acceptor under synctest fake time", design="5/C01"),
  "C02": dict(
    text="Lean theorems over a model of service/cache.go: after any presentation of (client, timestamp, service) every later presentation is flagged whatever other presentations and clean-ups happen in between, provided no clean-up ran when the timestamp was outside its window (once, once_window, by induction over histories of any length); a replay verdict always has an earlier presentation of exactly that triple as cause (exact); n concurrent atomic presentations of one authenticator under ANY lock-acquisition order accept exactly one (concurrent_once); the unrepaired four-section code is refuted by concrete schedules. Regenerated fact (go/ast): in the current source IsReplay, AddEntry and ClearOldEntries each touch the cache inside exactly one write-locked section. Tied to Go by bounded-exhaustive and long random histories under a fake clock, every schedule of 2-3 concurrent calls at the lock-acquisition yield points (cooperative scheduler), free-running parallel stress and a real-time cleaner history.",
    note="Go mutex semantics, the memory model and testing/synctest are trusted; the lock-shape extractor (go/ast walker in the harness) is trusted to see every access to entries/replayMap in cache.go; atomicity is proved from that fact, races are exhibited only by the schedule enumeration and stress.",
